@@ -368,6 +368,69 @@ pub fn sub_heavy(seed: u64) -> i32 {
     0
 }
 
+/// Workload for the instrumented builds (ASan / valgrind / Miri): the same generators under the panic monitor.
+pub fn sub_san(seed: u64, shard: u64, n: u64, light: bool) -> i32 {
+    let mut t = Tally::new();
+    for i in 0..n {
+        let mut r = Rng::keyed(seed, "C08", "hostile-san", shard, i);
+        let case = gen_hostile(&mut r);
+        run_case(&mut t, &case, "hostile");
+    }
+    for case in crate::props::c18::corpus(seed + 1000 + shard, if light { n / 2 } else { n / 10 + 200 }) {
+        run_case(&mut t, &case, "mixed-corpus");
+    }
+    if !light {
+        if shard == 0 {
+            charset_matrix(&mut t, seed);
+            stable_api(&mut t);
+            for (name, case) in heavy_cases(seed) {
+                run_case(&mut t, &case, "heavy");
+                let _ = name;
+            }
+        }
+        if shard == 1 {
+            direct_api(&mut t, seed, n / 4);
+        }
+    } else if shard % 4 == 0 {
+        stable_api(&mut t);
+        direct_api(&mut t, seed + shard, 100);
+        for (name, case) in heavy_cases(seed).into_iter().take(12) {
+            run_case(&mut t, &case, "heavy");
+            let _ = name;
+        }
+    }
+    for v in t.violations.iter().take(5) {
+        println!("SAN-PANIC {}", v.detail);
+    }
+    println!("SAN-DONE executed={} panics={}", t.evaluations, t.violations.len());
+    0
+}
+
+/// Miri: a handful of operations per process (interpretation costs seconds per validation).
+pub fn sub_miri(seed: u64, shard: u64, n: u64) -> i32 {
+    let mut t = Tally::new();
+    let corpus = crate::props::c18::corpus(seed + shard, n);
+    for (i, case) in corpus.iter().enumerate() {
+        run_case(&mut t, case, "mixed-corpus");
+        let mut r = Rng::keyed(seed, "C08", "hostile-miri", shard, i as u64);
+        let h = gen_hostile(&mut r);
+        if h.wire.body.len() < 2000 && h.wire.uri.len() < 400 {
+            run_case(&mut t, &h, "hostile");
+        }
+    }
+    if shard % 4 == 1 {
+        stable_api(&mut t);
+    }
+    if shard % 4 == 2 {
+        direct_api(&mut t, seed + shard, 6);
+    }
+    for v in t.violations.iter().take(5) {
+        println!("SAN-PANIC {}", v.detail);
+    }
+    println!("SAN-DONE executed={} panics={}", t.evaluations, t.violations.len());
+    0
+}
+
 #[cfg(feature = "unstable-api")]
 fn direct_api(t: &mut Tally, seed: u64, n: u64) {
     use scratchstack_aws_signature::auth::SigV4Authenticator;
